@@ -103,7 +103,8 @@ func runExplorer(run *report.Run, check string, e *explore.Explorer) {
 	for _, s := range sigs {
 		f := e.Findings[s]
 		run.Add(report.Violation{Sig: f.Sig, What: f.What, Detail: f.Detail, Config: f.Config, Check: check,
-			History: e.Cfg.DescribeHist(f.Hist), Replay: map[string]interface{}{"config": f.Config, "ops": f.Hist}, Count: f.Count})
+			History: e.Cfg.DescribeHist(f.Hist), Replay: map[string]interface{}{"config": f.Config, "ops": f.Hist}, Count: f.Count,
+			GoTest: GoTestFor(e.Cfg, f.Hist, f.Sig, f.What, f.Detail)})
 	}
 }
 
